@@ -207,6 +207,17 @@ def _(c):
         ("assert", "partition-becomes-writable-only-on-the-coordinators-no-error-for-it",
          "error_type == Errors.NoError and Errors.for_code(error_code) == Errors.NoError and a0 == TopicPartition(topic, partition)"),
     ])
+    c.replay_fn = lambda model, ob=None: {"script": _ADD_PARTITIONS_SCRIPT}
+
+
+_ADD_PARTITIONS_SCRIPT = '''
+import sys
+sys.path.insert(0, "/verif")
+from specs import txn_handlers_replay
+bad = txn_handlers_replay.partitions_sweep()
+VIOLATED = bool(bad)
+DETAIL = "%d AddPartitionsToTxn answers made an unacknowledged partition writable; first: %r" % (len(bad), bad[:2]) if bad else "ok"
+'''
 
 
 # ------------------------------------------------------------------ Sender._send_produce_req (muting discipline: C01 order, C07)
@@ -259,7 +270,6 @@ def _(c):
            modifies=["MessageAccumulator.*", "MessageBatch.*", "Future.state", "Future.nres", "Future.exc"],
            note="MessageAccumulator.fail_undrained (under contract, accumulator_flush.py): afterwards every batch still queued "
                 "has been drained before (waits for a retry)")
-    c.call("txn_manager.wait_for_transaction_end", returns=Fut(NONE), note="the transaction's waiter future")
     c.call("self._maybe_wait_for_pid", havoc_all=True, raises=["KafkaError", "CancelledError"], note="suspends until a producer id is known")
     c.call("txn_manager.make_task_waiter", returns=TASK, post=["fresh(result)", "not result.done()"],
            modifies=["TransactionManager._task_waiter"], note="TransactionManager.make_task_waiter: a new pending future")
@@ -291,7 +301,8 @@ def _(c):
         ("assert", "partitions-not-yet-acknowledged-by-the-coordinator-are-muted",
          "implies(%s, forall(TP, lambda q: implies(q in self._txn_manager._pending_txn_partitions, q in kw_muted_partitions)))" % TXN),
         ("assert", "with-an-abortable-error-nothing-unsent-is-left-to-drain",
-         "implies(%s and self._txn_manager.state == TransactionState.ABORTABLE_ERROR, $only_retries_queued)" % TXN),
+         # "with an error": until the transaction that met it is ended (also while it is being aborted)
+         "implies(%s and self._txn_manager._abortable_error is not None, $only_retries_queued)" % TXN),
         # C01: "never two batches of one partition in flight"
         ("assert", "partitions-with-a-request-in-flight-are-muted",
          "forall(TP, lambda q: implies(q in self._muted_partitions, q in kw_muted_partitions)) and kw_ignore_nodes == self._in_flight"),
